@@ -65,6 +65,8 @@ def cmd_confirm(name):
     crates = touched_crates(os.path.join(d, 'patch.diff'))
     res['crates'] = crates
     demo_loc = m.get('demo_location', '')
+    mm = re.search(r'crates/\S+?\.rs', demo_loc)
+    demo_loc = mm.group(0) if mm else demo_loc
     demo_crate = re.search(r'crates/([\w-]+)/', demo_loc)
     demo_crate = demo_crate.group(1) if demo_crate else (crates[0] if crates else None)
     # existing tests of the touched crates, mutation applied, demo absent
@@ -98,7 +100,7 @@ def cmd_confirm(name):
         ran = re.search(r'(\d+) passed; (\d+) failed', out)
         return ran, out
     ran, out = run_demo()
-    res['demo_with_patch'] = ('FAILS' if (ran and int(ran.group(2)) > 0) or 'panicked' in out or 'error' in out.lower() and not ran else 'passes') if ran or out else 'no result'
+    res['demo_with_patch'] = 'FAILS' if (ran and int(ran.group(2)) > 0) else ('passes' if ran else 'NO TEST RESULT')
     res['demo_with_patch_tail'] = out[-600:]
     sh('git checkout -- . && git clean -fdq -e target', cwd=WT)
     ran, out = run_demo()
